@@ -224,12 +224,12 @@ theorem runPure_wrapAt (path : Bytes) (loc : Loc) (m : M Status) (s : RS) :
 
 /-- the head of `loopRun`: with the collection, its items and the modifiers evaluated, what
     remains is the dispatch on the selected items, wrapped at the loop tag -/
-theorem loopRun_eq (P : Prims) (path : Bytes) (loc : Loc) (tr : Bool) (var : Bytes) (e : Expr) (mods : LoopMods)
+theorem loopRun_eq {budget : Int} (P : Prims) (path : Bytes) (loc : Loc) (tr : Bool) (var : Bytes) (e : Expr) (mods : LoopMods)
     (bodyM : M Status) (elseM : Option (M Status)) (s : RS) (v : GoVal) (items0 : List GoVal) (off lim : Option Int)
-    (hv : evaluate P s.env e = .ok v) (hitems : loopItems v = .ok items0)
+    (hv : evaluate P s.env e = .ok v) (hitems : loopItems budget v = .ok items0)
     (hoff : intModifier P mods.offset loc s = .ret (off, s))
     (hlim : intModifier P mods.limit loc s = .ret (lim, s)) :
-    loopRun P path loc tr var e mods bodyM false elseM s =
+    loopRun budget P path loc tr var e mods bodyM false elseM s =
       wrapAt path loc (loopDispatch P loc tr var mods.cols bodyM elseM (selectItems mods.reversed off lim items0)) s := by
   unfold loopRun wrapAt
   simp only [bind, M.bind, M.getEnv, Prog.bind, hv, hitems, M.ofRes, pure, M.pure, hoff, hlim, Bool.false_eq_true, if_false]
